@@ -5,6 +5,9 @@ TB = ("Trusted base: Python's ast / clang 14's parser, the checker's own CFG, "
       "dominance and abstract domains (exercised by the self-test corpus), "
       "/verif/spec reference tables. ")
 
+# properties whose check is finished and registered in MANIFEST.json
+READY = ["C02", "C03", "C12", "C13", "C18"]
+
 CLAIMS = {
     "C02": {
         "technique": "static guard-set (edge-dominator) analysis on the statement CFG + who-may-call scan",
